@@ -180,6 +180,14 @@ def late_expr(case):
 def extra_cases(prop, tier, seed):
     """the implementation's real default horizon (max_days=100000): only working day at offset H-1 vs H"""
     res = []
+    # capacities that are tiny but positive (2^-40, exact as a float; no arithmetic on them): "positive capacity" means > 0, not > some epsilon
+    tiny = '1/1099511627776'
+    t0 = BASE_DAY * DAY_US + 9 * 3600 * 10**6
+    for d in (1, -1):
+        day = (BASE_DAY + 3 * d) * DAY_US
+        for expr in (['D', [[day, tiny]]], ['F', tiny, None, None], ['op', 'or', ['D', [[day, tiny]]], ['WL', None, None, [], '8']],
+                     ['WD', None, None, [[k, tiny] for k in range(7)]]):
+            res.append({'expr': expr, 'q': [day, day + DAY_US, t0], 'search': [[t0, d, 8], [t0, d, 1], [t0, -d, 8]], 'floats': True})
     if tier == 'thorough':
         from extracted import consts
         H = consts().get('max_days', 100000)
